@@ -70,6 +70,13 @@ func (p *JSONParser) Parse(jsonString string) (*core.Payload, error) {
 		)
 	}
 
+	// Repeated fields cannot hold null elements in the proto3 JSON mapping. The codec
+	// turns them into nil messages, which it then fails to handle when packing the
+	// attributes.
+	if hasNullListElement(jsonData) {
+		return nil, core.ErrParsingPayload.Wrap("json lists cannot contain null elements")
+	}
+
 	pw := core.PayloadWrapper{}
 	err = types.UnmarshalJSON(p.cdc, []byte(jsonString), &pw)
 	if err != nil {
@@ -80,4 +87,25 @@ func (p *JSONParser) Parse(jsonString string) (*core.Payload, error) {
 	}
 
 	return pw.Orbiter, nil
+}
+
+// hasNullListElement returns true if any list nested in the decoded
+// JSON value contains a null element.
+func hasNullListElement(value any) bool {
+	switch v := value.(type) {
+	case map[string]any:
+		for _, e := range v {
+			if hasNullListElement(e) {
+				return true
+			}
+		}
+	case []any:
+		for _, e := range v {
+			if e == nil || hasNullListElement(e) {
+				return true
+			}
+		}
+	}
+
+	return false
 }
